@@ -820,8 +820,19 @@ func (e *Ev) callDynamic(fn *types.Func, recv Term, n *ast.CallExpr) Term {
 
 func (e *Ev) callExternal(fn *types.Func, recv *Term, n *ast.CallExpr) Term {
 	sig := fn.Type().(*types.Signature)
+	// generic functions: use the instantiated signature of this call
+	if !e.spec {
+		if tv, ok := e.g().P.Info.Types[n.Fun]; ok {
+			if is, ok := tv.Type.(*types.Signature); ok {
+				sig = is
+			}
+		}
+	}
+	e.instSig = sig
 	args := e.evArgs(n, sig)
-	return e.callExternalArgs(fn, recv, args, n)
+	r := e.callExternalArgs(fn, recv, args, n)
+	e.instSig = nil
+	return r
 }
 
 func (e *Ev) callExternalArgs(fn *types.Func, recv *Term, args []Term, n *ast.CallExpr) Term {
